@@ -1034,7 +1034,7 @@ class CompartmentalModel:
         parameters = parameters or {}
 
         # The cached runner is only good for the solver (and solver options) it was built with
-        runner_args = (solver, kwargs)
+        runner_args = (solver, copy.deepcopy(kwargs))  # (our own copy: callers reuse their dicts)
         if rebuild or getattr(self, "_runner_args", None) != runner_args:
             self._runner = None
 
